@@ -656,6 +656,24 @@ impl Oracle for ReadOracle {
                     };
                     let t = rx.t_ms;
                     if frag.ctrl.fir {
+                        // "the first fragment alone has FIR": a fragment that continues the series in progress (next sequence
+                        // number, right after the matching confirm, no new request) must not carry it
+                        if let (Some(sr), Some((got, _))) = (self.series.as_ref(), self.confirm_sent) {
+                            if !sr.finished
+                                && sr.awaiting_confirm == Some(got)
+                                && frag.ctrl.seq == sr.seq_next
+                                && matches!(step.op, Op::Confirm { .. })
+                            {
+                                return Some(Violation::new(
+                                    "C11/fir-on-later-fragment",
+                                    "",
+                                    format!(
+                                        "step {}: the fragment that follows the confirmation of fragment {} (seq {}) carries FIR",
+                                        step.op_index, sr.fragments, frag.ctrl.seq
+                                    ),
+                                ));
+                            }
+                        }
                         // a new series: is it the answer to the READ we know?
                         let snap = self.snapshot.take();
                         let mut series = None;
@@ -866,6 +884,29 @@ impl Oracle for ReadOracle {
                         ]);
                     }
                 }
+            }
+        }
+        // "the next one is sent only after the matching confirm" has a converse: a series does not stop on its own. After the
+        // matching confirm, sent in time while the connection is up, the next fragment follows (only a new request, a
+        // time-out or a disconnect ends a series)
+        if let (Some(sr), Some((got, tc))) = (self.series.as_ref(), self.confirm_sent) {
+            if !sr.finished
+                && sr.awaiting_confirm == Some(got)
+                && sr.last_tx <= tc
+                && tc + 1 < sr.last_tx + self.confirm_timeout
+                && step.link_up
+                && !step.connected
+                && !step.disconnected
+                && matches!(step.op, Op::Confirm { .. })
+            {
+                return Some(Violation::new(
+                    "C11/series-stopped-after-timely-confirm",
+                    format!("fragment-no={}", sr.fragments.min(4)),
+                    format!(
+                        "step {}: fragment {} (seq {}, sent at {} ms, not final) was confirmed at {} ms, within the time-out of {} ms, and no further fragment followed",
+                        step.op_index, sr.fragments, got, sr.last_tx, tc, self.confirm_timeout
+                    ),
+                ));
             }
         }
         let kind = match &step.op {
